@@ -590,10 +590,24 @@ class Interp:
             cur = env
             broke = []
             alive = True
-            for x in items:
+            alias_names = None
+            if isinstance(st.iter, (ast.List, ast.Tuple)) and \
+                    isinstance(st.target, ast.Name) and \
+                    all(isinstance(e, ast.Name) for e in st.iter.elts) and \
+                    len(st.iter.elts) == len(items) and any(
+                        isinstance(n, ast.AugAssign) and isinstance(n.target, ast.Name)
+                        and n.target.id == st.target.id
+                        for b in st.body for n in ast.walk(b)):
+                # `for a in [x, y]: a *= c` updates the arrays x, y in place
+                alias_names = [e.id for e in st.iter.elts]
+            for ix, x in enumerate(items):
                 cur = dict(cur)
                 self.assign(st.target, x, cur, frame, cond)
                 res = self.exec_block(st.body, cur, frame, cond)
+                if alias_names is not None:
+                    for o in res:
+                        if o.kind in ('fall', 'continue') and st.target.id in o.env:
+                            o.env[alias_names[ix]] = o.env[st.target.id]
                 nxt = []
                 for o in res:
                     if o.kind in ('fall', 'continue'):
@@ -1279,6 +1293,22 @@ class Interp:
         if k == 'extref':
             name = ft[1]
             self.record_call(name, pos, kws, frame, node, cond)
+            if name == 'numexpr.evaluate' and len(pos) == 1 and not kws and \
+                    pos[0][0] == 'const' and isinstance(pos[0][1], str) and \
+                    env is not None:
+                # numexpr evaluates the string in the caller's scope
+                try:
+                    expr = ast.parse(pos[0][1].strip(), mode='eval').body
+                except SyntaxError:
+                    expr = None
+                if expr is not None:
+                    for n in ast.walk(expr):
+                        n.lineno = getattr(node, 'lineno', 0)
+                    env2 = dict(env)
+                    for fn in ('exp', 'cos', 'sin', 'sqrt', 'log', 'tan', 'abs',
+                               'arctan2', 'conj', 'real', 'imag', 'where'):
+                        env2.setdefault(fn, ('extref', 'numpy.' + fn))
+                    return self.eval(expr, env2, frame, cond)
             folded = self.fold_builtin(name, pos, kws, frame, cond)
             if folded is not None:
                 return folded
@@ -1450,6 +1480,11 @@ class Interp:
                 return (name, tuple(items))
         if name in ('list', 'tuple', 'dict') and not pos and not kws:
             return (name, ())
+        if name == 'dict' and len(pos) == 1 and not kws and pos[0][0] in ('list', 'tuple') \
+                and all(x[0] == 'tuple' and len(x[1]) == 2 for x in pos[0][1]):
+            return ('dict', tuple((x[1][0], x[1][1]) for x in pos[0][1]))
+        if name == 'dict' and len(pos) == 1 and not kws and pos[0][0] == 'dict':
+            return pos[0]
         if name == 'dict' and not pos and '**' not in kws:
             return ('dict', tuple((('const', k), v) for k, v in sorted(kws.items())))
         if name == 'range' and pos and all(is_num(a) for a in pos):
